@@ -159,6 +159,10 @@ func (r *RNG) GradientSetupOpt(lazy bool) []Call {
 	}
 	cs = append(cs, Call{Name: "csel", U8: sel})
 	g := ivg.EncodeGradient(cBase, nBase, uint8(r.Intn(2)), uint8(r.Intn(4)), uint8(nStops))
+	if lazy && r.Chance(12) {
+		// the two reserved high bits of the red byte set (NSTOPS is its low six bits only)
+		g.R |= uint8(1+r.Intn(3)) << 6
+	}
 	cs = append(cs, Call{Name: "creg", Adj: 0, Col: ivg.RGBAColor(g)})
 	return cs
 }
@@ -1277,6 +1281,10 @@ func (r *RNG) DecOpts() []DecOpt {
 					p[i] = r.RGBAAny()
 				}
 			}
+			if r.Chance(20) {
+				// a replacement that happens to equal the default palette (64 opaque blacks) is still a replacement
+				p = ivg.DefaultPalette
+			}
 			opts = append(opts, DecOpt{Pal: &p})
 		} else {
 			opts = append(opts, DecOpt{Index: r.Intn(64), Col: r.UserColor()})
@@ -1382,6 +1390,26 @@ func monitorC14(line string, opts []DecOpt, src []byte, suggested [64]color.RGBA
 	if calls[0].Pal != want {
 		fails = append(fails, Failure{"C14.options-fold-sanitised", line, "palette passed to Reset differs from options folded over the suggested palette (invalid entries as opaque black)"})
 	}
+	if len(opts) >= 2 {
+		// the caller keeps ONE option slice (with spare capacity, as append leaves it) and decodes twice: first
+		// with a prefix of it, then with all of it — the second decode must still apply every option in order
+		gopts := make([]decode.DecodeOption, 0, len(opts)+2)
+		for _, o := range opts {
+			gopts = append(gopts, o.Go())
+		}
+		func() {
+			defer func() { recover() }()
+			decode.Decode(&Recorder{}, src, gopts[:len(gopts)-1]...)
+		}()
+		rec2 := &Recorder{}
+		func() {
+			defer func() { recover() }()
+			decode.Decode(rec2, src, gopts...)
+		}()
+		if len(rec2.Calls) == 0 || rec2.Calls[0].Pal != want {
+			fails = append(fails, Failure{"C14.options-in-order", line, "after a decode with a prefix of the caller's option slice, a decode with the whole slice no longer applies every option (the slice was written to)"})
+		}
+	}
 	// no palette-derived paint may be a gradient or disable a path: check through the Renderer
 	rec := &RecRaster{}
 	var z render.Renderer
@@ -1457,6 +1485,11 @@ func suiteC04(s *Shard, n int) {
 		for _, f := range monitorVM(line, rect, cs) {
 			s.Fail(f.Clause, f.Case, f.Detail)
 		}
+		if i%10 == 0 {
+			for _, f := range monitorWrapped("C04", line, rect, smp, cs, r.Bool()) {
+				s.Fail(f.Clause, f.Case, f.Detail)
+			}
+		}
 	}
 }
 
@@ -1484,6 +1517,11 @@ func suiteC05(s *Shard, n int) {
 		line := RenCase(rect, nil, cs)
 		for _, f := range monitorGeometry(line, rect, cs) {
 			s.Fail(f.Clause, f.Case, f.Detail)
+		}
+		if i%6 == 0 {
+			for _, f := range monitorWrapped("C05", line, rect, nil, cs, r.Bool()) {
+				s.Fail(f.Clause, f.Case, f.Detail)
+			}
 		}
 	}
 }
